@@ -168,7 +168,7 @@ def blocksLine (pre : String) (first last n mn : Nat) : String :=
 def poolProg (toks : List String) : List String :=
   match toks with
   | _ :: n :: rest =>
-    let prog := rest.filter (fun t => !(t.startsWith "d:" || t.startsWith "rand:"))
+    let prog := rest.filter (fun t => !(t.startsWith "d:" || t.startsWith "rand:" || t.startsWith "sp:"))
     let (outs, _, _) := prog.foldl (fun (acc : List String × Nat × Nat) op =>
       let (outs, size, runs) := acc
       match op.splitOn ":" with
